@@ -297,8 +297,10 @@ Judge(cfg, j, ev) ==
       [] ev.call = "Load"      -> JudgeLoad(cfg, j, ev)
       [] ev.call = "MakeState" -> IF ev.res = "Ok" /\ ev.same THEN Vd(TRUE, {"ok"}, j) ELSE Vd(FALSE, {"makestate.err"}, j)
       \* an edit of the unencrypted document by the caller: the edited document is what has to come back from now on
-      [] ev.call = "Edit"      -> IF j.mem = "plain" /\ ev.res = "Ok" /\ ~ev.tenc /\ AllEq(ev.items, j.via) THEN Vd(TRUE, {"ok-edit"}, j)
-                                  ELSE Vd(TRUE, {"ok-unjudged"}, [j EXCEPT !.mem = IF ev.same THEN j.mem ELSE "lost"])
+      \* (a file saved before the edit holds the old document: nothing is demanded of it any more)
+      [] ev.call = "Edit"      -> LET jd == [j EXCEPT !.disk = IF ev.same \/ @ = "none" THEN @ ELSE "lost"] IN
+                                  IF j.mem = "plain" /\ ev.res = "Ok" /\ ~ev.tenc /\ AllEq(ev.items, j.via) THEN Vd(TRUE, {"ok-edit"}, jd)
+                                  ELSE Vd(TRUE, {"ok-unjudged"}, [jd EXCEPT !.mem = IF ev.same THEN j.mem ELSE "lost"])
       [] OTHER                 -> Vd(FALSE, {"unknown.call"}, j)
 
 J0 == [mem |-> "plain", disk |-> "none", via |-> FALSE]
@@ -448,6 +450,9 @@ Editable(s, pos) ==
 
 StepEdit(cfg, s, pos) ==
     [s EXCEPT !.res = Ok,
+              \* a file saved earlier keeps the old values
+              !.disk = IF s.disk = NoDisk THEN NoDisk
+                       ELSE [s.disk EXCEPT !.objs = [i \in DOMAIN @ |-> IF i = pos THEN MapPl("stale", @[i]) ELSE @[i]]],
               !.objs = [i \in DOMAIN s.objs |->
                           IF i = pos THEN MapPl("edit", s.objs[i])
                           ELSE IF s.objs[i].k = "stream" /\ s.objs[i].mem # <<>>
